@@ -126,6 +126,11 @@ def gen_cases(rng, tier):
         names = r.sample(V.FNAMES, nf)
         cases.append({"kind": "ident", "name": r.choice(V.TNAMES + ["t/x", "a" * 40]),
                       "fields": [[r.choice(V.SERIALISABLE) + ("[]" if r.chance(20) else ""), fn] for fn in names]})
+    for L in (1, 54, 55, 56, 57, 63, 64, 65, 118, 119, 120, 121, 128, 183, 184):
+        # hash input lengths around the SHA-256 padding boundaries (one / two / three blocks)
+        cases.append({"kind": "ident", "name": "t/" + "a" * (L - 2) if L > 2 else "t"[:L], "fields": []})
+        if L > 12:
+            cases.append({"kind": "ident", "name": "t/" + "b" * (L - 12), "fields": [["string", "abcd"]]})
     cases.append({"kind": "ident", "name": "t/x", "fields": [["stringlist", "a"], ["string", "b"]]})
     cases.append({"kind": "ident", "name": "t/x", "fields": [["string", "a"], ["string", "listb"]]})
     return cases
